@@ -214,7 +214,7 @@ def run(ctx, facts):
     ctx.rule("U6", "lock acquisitions do not propagate poisoning: no std::sync lock whose LockResult is unwrapped", floor=8)
     rule_u6(ctx, facts)
     ctx.rule("U1", "every user-closure call under a bin lock unwinds through the Drop of that MutexGuard", floor=2)
-    ctx.rule("U2", "no user code between lock_root and unlock_root", floor=2)
+    ctx.rule("U2", "no caller-supplied closure runs between lock_root and unlock_root; every path releases", floor=2)
     ctx.rule("U3", "retain / retain_force predicates are called under no lock", floor=2)
     ctx.rule("U4", "no shared write or retire between the lock acquisition and the callback", floor=2)
     ctx.rule("U5", "no caller-supplied closure runs between unlinking an entry and adjusting the count", floor=2)
@@ -267,7 +267,7 @@ def run(ctx, facts):
     for b in facts.bodies:
         seen = cg.reachable(b.id)
         for bid in seen:
-            if any(user_code_call(c) and not facts.by_id[bid].is_cleanup(c.b) for c in facts.by_id[bid].calls):
+            if any(user_closure_call(c) and not facts.by_id[bid].is_cleanup(c.b) for c in facts.by_id[bid].calls):
                 user_reach[b.id] = bid
                 break
     for b in facts.bodies:
@@ -282,10 +282,12 @@ def run(ctx, facts):
             for x in b.calls:
                 if x.point not in inside or b.is_cleanup(x.b):
                     continue
-                if user_code_call(x):
-                    bad = (x, "user code %s" % x.path)
+                # C18 is about caller-supplied closures; Hash/Ord/Eq of the key type are outside its statement (the read-lock region of
+                # TreeBin::find already runs key comparisons with no unwind guard in the pinned code)
+                if user_closure_call(x):
+                    bad = (x, "the caller-supplied closure %s" % x.path)
                 elif x.resolved in user_reach and x.resolved not in acq_ids:
-                    bad = (x, "%s, which reaches user code in %s" % (strip_generics(x.resolved), strip_generics(user_reach[x.resolved])))
+                    bad = (x, "%s, which reaches a caller-supplied closure in %s" % (strip_generics(x.resolved), strip_generics(user_reach[x.resolved])))
                 if bad:
                     break
             # and every normal path reaches the release
@@ -293,7 +295,7 @@ def run(ctx, facts):
             leaks = [rp for rp in return_points(b) if rp in inside]
             ok = bad is None and not leaks
             ctx.inst("U2", b, "root-lock region from %s" % c.span.split(":", 1)[1], c.span, ok,
-                     "no user code between lock_root and unlock_root; every path releases" if ok else
+                     "no caller-supplied closure between lock_root and unlock_root; every path releases" if ok else
                      ("calls %s at %s while the tree write lock (released only by an explicit store) is held" % (bad[1], bad[0].span) if bad else
                       "a path returns without unlock_root"))
     # U3
